@@ -28,8 +28,14 @@ PORTALLOCATION_CLASS_BLACKLIST = {
 XT_EXITEM = "org.polarsys.capella.core.data.information:ExchangeItem"
 
 
-def generic_factory(seb: C.SemanticElementBuilder) -> diagram.Edge:
-    """Create an Edge from the diagram XML."""
+def generic_factory(
+    seb: C.SemanticElementBuilder, *, label: str | None = None
+) -> diagram.Edge:
+    """Create an Edge from the diagram XML.
+
+    If a ``label`` is given, it is used as text of the primary label
+    instead of the name of the semantic element.
+    """
     bendpoints, sourceport, targetport = extract_bendpoints(seb)
 
     try:
@@ -68,7 +74,7 @@ def generic_factory(seb: C.SemanticElementBuilder) -> diagram.Edge:
     if isinstance(sourceport, diagram.Box):
         snaptarget(edge, 0, 1, sourceport, not edge.hidden, routingstyle)
 
-    edge.labels.extend(_construct_labels(edge, seb))
+    edge.labels.extend(_construct_labels(edge, seb, label))
 
     sourceport.add_context(seb.data_element.attrib["element"])
     if targetport is not None:
@@ -382,16 +388,21 @@ def snap_tree(
 
 
 def _construct_labels(
-    edge: diagram.Edge, seb: C.SemanticElementBuilder
+    edge: diagram.Edge,
+    seb: C.SemanticElementBuilder,
+    label: str | None = None,
 ) -> list[diagram.Box]:
     """Construct the label box for an edge."""
     refpoints = _find_refpoints(edge)
     layouts = seb.data_element.xpath("./children/layoutConstraint")
     labels: list[diagram.Box] = []
-    for (labelanchor, travel_direction), layout, melodyobj in zip(
-        refpoints, layouts, seb.melodyobjs, strict=False
+    for i, ((labelanchor, travel_direction), layout, melodyobj) in enumerate(
+        zip(refpoints, layouts, seb.melodyobjs, strict=False)
     ):
-        labeltext = melodyobj.get("name", "")
+        if i == 0 and label is not None:
+            labeltext = label
+        else:
+            labeltext = melodyobj.get("name", "")
 
         label_pos = diagram.Vector2D(
             int(layout.get("x", "0")),
@@ -616,17 +627,16 @@ def req_relation_factory(seb: C.SemanticElementBuilder) -> diagram.Edge:
                 "Requirement-Relation %r has no RelationType",
                 seb.data_element.attrib[C.ATT_XMID],
             )
-        finally:
-            seb.melodyobjs[0].attrib["name"] = label
 
-    return generic_factory(seb)
+    return generic_factory(seb, label=label)
 
 
 def include_extend_factory(seb: C.SemanticElementBuilder) -> diagram.Edge:
     """Create an AbstractCapabilityIncludes or -Extends edge."""
-    if seb.melodyobjs[0].get("name") is None:
-        seb.melodyobjs[0].attrib["name"] = seb.diag_element.get("name", "")
-    return generic_factory(seb)
+    label = seb.melodyobjs[0].get("name")
+    if label is None:
+        label = seb.diag_element.get("name", "")
+    return generic_factory(seb, label=label)
 
 
 def association_factory(seb: C.SemanticElementBuilder) -> diagram.Edge:
